@@ -3,6 +3,8 @@
    with the specification's result of parsing "root" (one JSON string per line; -workers 1). *)
 EXTENDS MC_GinParse, Json
 ExportAll == PrintT(ToJson([files |-> files, skip |-> [mode |-> skip.mode, names |-> SetToSeq(skip.names)],
-                            present |-> SetToSeq(present), result |-> ParseTop,
-                            resolved |-> [n \in FileNames |-> Resolve(n)]]))
+                            present |-> SetToSeq(present), reglog |-> reglog,
+                            result |-> [ParseTop EXCEPT !.recorded = SetToSeq(@)],
+                            resolved |-> [n \in FileNames |-> Resolve(n)],
+                            entries |-> [i \in 1..Len(EntryForms) |-> [form |-> EntryForms[i], result |-> EntryResult(EntryForms[i])]]]))
 =============================================================================
